@@ -41,7 +41,9 @@ var filters = []filter{
 	{"all", func(string) bool { return true }},
 	{"reject *.skip", func(p string) bool { return !strings.HasSuffix(p, ".skip") }},
 	{"none", func(string) bool { return false }},
-	{"only d/", func(p string) bool { return strings.Contains(p, string(filepath.Separator)+"d"+string(filepath.Separator)) }},
+	{"only d/", func(p string) bool {
+		return strings.Contains(p, string(filepath.Separator)+"d"+string(filepath.Separator))
+	}},
 }
 
 func must(err error) {
